@@ -195,7 +195,7 @@ func Mutants(class, cipher string, wire, other, plaintext []byte, full bool, k i
 	}
 	o0 := fresh()
 	isMac := o0.mac
-	needMac := map[string]bool{"flip_tag": true, "strip_mac0": true, "strip_mac0+flip_ct": true, "strip_mac0+flip_iv": true,
+	needMac := map[string]bool{"short_tag+flip_ct": true, "short_tag+flip_iv": true, "flip_tag": true, "strip_mac0": true, "strip_mac0+flip_ct": true, "strip_mac0+flip_iv": true,
 		"strip_mac0+iv_len": true, "strip_mac0+empty_ct": true, "strip_mac0+truncate": true}
 	if needMac[class] && !isMac || class == "wrap_mac0" && isMac {
 		return nil, nil // not applicable to this form
@@ -313,6 +313,24 @@ func Mutants(class, cipher string, wire, other, plaintext []byte, full bool, k i
 		o := fresh()
 		o.root.Kids[0].Kids[3] = cb.Bstr(make([]byte, len(tag.Bytes)))
 		add("MAC tag all zero", o.bytes())
+	case "short_tag+flip_ct", "short_tag+flip_iv":
+		// the MAC value shortened to a prefix of the genuine tag (or emptied) and the content altered
+		tag := o0.root.Kids[0].Kids[3]
+		for _, l := range []int{0, 1, 8, len(tag.Bytes) / 2, len(tag.Bytes) - 1} {
+			if l < 0 || l >= len(tag.Bytes) {
+				continue
+			}
+			o := fresh()
+			o.root.Kids[0].Kids[3] = cb.Bstr(append([]byte(nil), tag.Bytes[:l]...))
+			if class == "short_tag+flip_ct" {
+				ct := o.ct()
+				ct.Bytes = flipBit(ct.Bytes, rng.Intn(len(ct.Bytes)*8))
+			} else {
+				iv := o.iv()
+				iv.Bytes = flipBit(iv.Bytes, rng.Intn(len(iv.Bytes)*8))
+			}
+			add(fmt.Sprintf("MAC tag cut to %d bytes, content altered", l), o.bytes())
+		}
 	case "strip_mac0":
 		add("bare COSE_Encrypt0 (MAC wrapper removed)", strip(fresh()).Encode())
 	case "strip_mac0+iv_len", "iv_len":
